@@ -39,9 +39,27 @@ static long rep_s, rep_k;
 static long long next_s(SrcD *s) { if (s->is < s->nss && s->ss[s->is] == 9) return run9(s->ss, &s->is, &rep_s); return s->is < s->nss ? s->ss[s->is++] : 4; }
 static long long next_k(SnkD *k) { if (k->ik < k->nks && k->ks[k->ik] == 9) return run9(k->ks, &k->ik, &rep_k); return k->ik < k->nks ? k->ks[k->ik++] : 4; }
 
+/* A driver may itself move octets between other endpoints (a tee, a logger): every second driver call first runs the chunk calls and
+ * the plumbing on the library's trivial endpoints (zero source, null sink).  The endpoint functions are expected to be re-entrant. */
+static unsigned drv_calls;
+static int drv_depth;
+static void drv_nested(void)
+{
+    if (drv_depth || (drv_calls++ % 2)) return;
+    unsigned char tmp[5], auxm[3];
+    ByteBuffer ab = BYTE_BUFFER_INIT(auxm, sizeof auxm, sizeof auxm, 0);
+    drv_depth++;
+    (void)source_get_chunk(&source_zero, tmp, sizeof tmp);
+    (void)sink_put_chunk(&sink_null, tmp, sizeof tmp);
+    (void)sts_n_cbc(&source_zero, &sink_null, 2);
+    (void)sts_n_aux(&source_zero, &sink_null, &ab, 4);
+    (void)sts_n(&source_zero, &sink_null, 2);
+    drv_depth--;
+}
 static ssize_t src_chunk(void *drv, void *buf, size_t n)
 {
     SrcD *s = drv;
+    drv_nested();
     if (++budget > BUDGET) longjmp(bail, 1);
     s->calls++;
     if (s->pos >= s->L) {
@@ -60,6 +78,7 @@ static ssize_t src_chunk(void *drv, void *buf, size_t n)
 static int src_octet(void *drv, void *buf)
 {
     SrcD *s = drv;
+    drv_nested();
     if (++budget > BUDGET) longjmp(bail, 1);
     s->calls++;
     if (s->pos >= s->L) {
@@ -75,6 +94,7 @@ static int src_octet(void *drv, void *buf)
 static ssize_t snk_chunk(void *drv, const void *buf, size_t n)
 {
     SnkD *k = drv;
+    drv_nested();
     if (++budget > BUDGET) longjmp(bail, 1);
     k->calls++;
     long long b = next_k(k);
@@ -86,6 +106,7 @@ static ssize_t snk_chunk(void *drv, const void *buf, size_t n)
 static int snk_octet(void *drv, unsigned char o)
 {
     SnkD *k = drv;
+    drv_nested();
     if (++budget > BUDGET) longjmp(bail, 1);
     k->calls++;
     long long b = next_k(k);
